@@ -423,6 +423,8 @@ def core():
         # required arguments of different kinds interleaved in declaration order (the first MISSING one is reported)
         variant("Copy", [arg("file", "str"), arg("level", "u8", short=True, long=True)]),
         # generated short name next to an explicit long name with another initial, and the reverse
+        # explicit long names are taken literally (underscores, capitals)
+        variant("Lit", [arg("a", "bool", long="dry_run"), arg("b", "u8", long="maxSize", optional=True), arg("c", "str", long="out_dir")]),
         variant("Send", [arg("num", "u8", short=True, long="count"), arg("quiet_mode", "bool", short=True, long="silent"),
                          arg("text", "str", optional=True)]),
         variant("Mix", [arg("a", "u8"), arg("b", "u8", long=True), arg("c", "str"), arg("d", "i8", short=True), arg("e", "char")]),
